@@ -1,6 +1,8 @@
 \* C03 / Pipeline, REPAIRED design, UNFUSED local steps (every hook event is a
 \* step of its own, as in trace validation): checks that fusing loses nothing.
-\* Measured: 39 656 distinct / 77 816 generated states, depth 41, 6 s; I1-I5 hold.
+\* Alphabet "smallpan": the 6 core classes + the valid request whose first parameter gate /
+\* first context gate PANICS.
+\* Measured (round 3): 54 296 distinct / 106 936 generated states, depth 41, 3-9 s; I0-I7 hold.
 SPECIFICATION MCSpec
 CONSTANTS
   Reqs = {1, 2}
